@@ -184,3 +184,79 @@ Proof.
     + rewrite Hz. unfold Rdiv. rewrite Rmult_0_l, rnd_0, Rmult_0_l, rnd_0. rewrite Rminus_0_r, Rabs_R0. lra.
     + pose proof (e7_core N ltac:(lia)). lra.
 Qed.
+
+(* ---- truncation (Convert, Extract): int32(f * 1e7) is within one unit of the exact value *)
+Lemma go_trunc_close (f:f64) : fin f = true -> Rabs (IZR (go_trunc f) - R64 f) < 1.
+Proof.
+  destruct f as [s|s|s pl Hpl|s m e He]; cbn [is_finite]; try discriminate; intros _.
+  - cbn. rewrite Rminus_0_r, Rabs_R0. lra.
+  - unfold go_trunc. cbn [B2R]. unfold F2R. cbn [Fnum Fexp].
+    destruct (Z.leb_spec 0 e) as [Hee|Hee].
+    + rewrite <- IZR_Zpower by exact Hee. rewrite <- mult_IZR.
+      replace (IZR (if s then - (Z.pos m * 2 ^ e) else Z.pos m * 2 ^ e) - IZR (cond_Zopp s (Z.pos m) * radix2 ^ e)) with 0; [rewrite Rabs_R0; lra|].
+      destruct s; cbn [cond_Zopp]; change (radix_val radix2) with 2%Z; rewrite <- minus_IZR; f_equal; lia.
+    + set (d := (2 ^ (- e))%Z).
+      assert (Hd : (0 < d)%Z) by (apply Z.pow_pos_nonneg; lia).
+      assert (Hb : bpow radix2 e = / IZR d).
+      { replace e with (- - e)%Z at 1 by lia. rewrite bpow_opp. f_equal. unfold d. rewrite <- IZR_Zpower by lia. reflexivity. }
+      rewrite Hb. assert (HdR : 0 < IZR d) by (apply IZR_lt; exact Hd).
+      pose proof (Z.div_mod (Z.pos m) d ltac:(lia)) as Hdm. pose proof (Z.mod_pos_bound (Z.pos m) d Hd) as Hr.
+      set (q := (Z.pos m / d)%Z) in *. set (r := (Z.pos m mod d)%Z) in *.
+      assert (Hm : IZR (Z.pos m) = IZR d * IZR q + IZR r) by (rewrite <- mult_IZR, <- plus_IZR; f_equal; exact Hdm).
+      assert (Hr1 : 0 <= IZR r < IZR d) by (split; [apply IZR_le|apply IZR_lt]; lia).
+      assert (Hfrac : IZR (Z.pos m) * / IZR d = IZR q + IZR r * / IZR d) by (rewrite Hm; field; lra).
+      assert (Hf1 : 0 <= IZR r * / IZR d < 1).
+      { split; [apply Rmult_le_pos; [lra|left; apply Rinv_0_lt_compat; lra]|]. apply Rmult_lt_reg_r with (IZR d); [lra|]. rewrite Rmult_assoc, Rinv_l by lra. lra. }
+      assert (Hgen : Rabs (IZR q - IZR (Z.pos m) * / IZR d) < 1).
+      { rewrite Hfrac. replace (IZR q - (IZR q + IZR r * / IZR d)) with (- (IZR r * / IZR d)) by ring. rewrite Rabs_Ropp, Rabs_pos_eq; lra. }
+      destruct s; cbn [cond_Zopp].
+      * match goal with |- Rabs ?t < 1 => replace t with (- (IZR q - IZR (Z.pos m) * / IZR d)) end; [rewrite Rabs_Ropp; exact Hgen|].
+        rewrite opp_IZR. change (Z.neg m) with (- Z.pos m)%Z. rewrite opp_IZR. ring.
+      * exact Hgen.
+Qed.
+
+Theorem e7_trunc_decimal (m:Z) (k:nat) : (k <= 7)%nat -> let N := (m * 10 ^ (7 - Z.of_nat k))%Z in
+  (- 2^31 + 1 < N < 2^31 - 1)%Z -> (Z.abs (to_e7_pinned (dec_to_f64 m k) - N) <= 1)%Z.
+Proof.
+  intros Hk N HN.
+  set (P := (10 ^ Z.of_nat k)%Z).
+  assert (HP : (1 <= P <= 10000000)%Z).
+  { unfold P. split; [pose proof (Z.pow_pos_nonneg 10 (Z.of_nat k)); lia|]. change 10000000%Z with (10^7)%Z. apply Z.pow_le_mono_r; lia. }
+  assert (HPN : (P * 10 ^ (7 - Z.of_nat k) = 10000000)%Z).
+  { unfold P. rewrite <- Z.pow_add_r by lia. replace (Z.of_nat k + (7 - Z.of_nat k))%Z with 7%Z by lia. reflexivity. }
+  assert (HQ : (1 <= 10 ^ (7 - Z.of_nat k))%Z) by (pose proof (Z.pow_pos_nonneg 10 (7 - Z.of_nat k)); lia).
+  assert (HmP : (Z.abs m < 2^53)%Z).
+  { assert (Z.abs m <= Z.abs N)%Z; [|lia]. unfold N. rewrite Z.abs_mul, (Z.abs_eq (10 ^ _)) by lia. nia. }
+  destruct (of_Z_correct m HmP) as [Hx Hxf].
+  destruct (of_Z_correct P) as [Hy _]; [lia|].
+  assert (HPR : 1 <= IZR P) by (apply IZR_le; lia).
+  assert (Heq : IZR m / IZR P = IZR N / 10000000).
+  { unfold N. rewrite mult_IZR. change 10000000 with (IZR 10000000). rewrite <- HPN, mult_IZR.
+    assert (1 <= IZR (10 ^ (7 - Z.of_nat k))) by (apply IZR_le; exact HQ). field. lra. }
+  assert (HNR : Rabs (IZR N) <= 2147483648).
+  { rewrite <- abs_IZR. apply IZR_le. change (2^31)%Z with 2147483648%Z in HN. lia. }
+  destruct (div_correct_gen (f64_of_Z m) (f64_of_Z P) _ _ Hx Hy) as [Hq Hqf]; [lra|exact Hxf| |].
+  { rewrite Heq. unfold Rdiv. rewrite Rabs_mult, (Rabs_pos_eq (/10000000)) by lra. change (bpow radix2 8) with 256. lra. }
+  fold (dec_to_f64 m k) in Hq, Hqf. rewrite Heq in Hq.
+  assert (Hqb : Rabs (rnd (IZR N / 10000000)) <= bpow radix2 8).
+  { apply rnd_le_pow; [lia|]. unfold Rdiv. rewrite Rabs_mult, (Rabs_pos_eq (/10000000)) by lra. change (bpow radix2 8) with 256. lra. }
+  destruct (mul_correct (dec_to_f64 m k) _ Hq Hqf) as [Hp Hpf].
+  { rewrite Rabs_mult, (Rabs_pos_eq 10000000) by lra. change (bpow radix2 8) with 256 in Hqb. change (bpow radix2 40) with 1099511627776. lra. }
+  pose proof (go_trunc_close _ Hpf) as Ht. rewrite Hp in Ht.
+  assert (Hcore : Rabs (rnd (rnd (IZR N / 10000000) * 10000000) - IZR N) < / 4).
+  { destruct (Z.eq_dec N 0) as [Hz|Hnz].
+    - rewrite Hz. unfold Rdiv. rewrite Rmult_0_l, rnd_0, Rmult_0_l, rnd_0. rewrite Rminus_0_r, Rabs_R0. lra.
+    - apply e7_core. lia. }
+  set (T := go_trunc (f64_mul (dec_to_f64 m k) f64_1e7)) in *.
+  assert (Hd : Rabs (IZR T - IZR N) < 2).
+  { replace (IZR T - IZR N) with ((IZR T - rnd (rnd (IZR N / 10000000) * 10000000)) + (rnd (rnd (IZR N / 10000000) * 10000000) - IZR N)) by ring.
+    eapply Rle_lt_trans; [apply Rabs_triang|]. lra. }
+  rewrite <- minus_IZR, <- abs_IZR in Hd. apply lt_IZR in Hd.
+  (* T is within one of N and N is an int32: wrapping is the identity *)
+  unfold to_e7_pinned. fold T. unfold wrap_int32. change (2^32)%Z with 4294967296%Z. change (2^31)%Z with 2147483648%Z in *.
+  clearbody N T. assert (HT : (- 2147483648 <= T < 2147483648)%Z) by lia.
+  destruct (Z_lt_le_dec T 0) as [Hneg|Hpos].
+  - assert (Hm : (T mod 4294967296 = T + 4294967296)%Z) by (symmetry; apply Z.mod_unique with (-1)%Z; lia).
+    rewrite Hm. destruct (Z.ltb_spec (T + 4294967296) 2147483648); lia.
+  - rewrite Z.mod_small by lia. destruct (Z.ltb_spec T 2147483648); lia.
+Qed.
